@@ -455,7 +455,19 @@ func (in *interpreter) symSliceString(s, lo, hi value) value {
 	if !in.path.branch(inb) {
 		panic(targetPanic{v: "runtime error: slice bounds out of range (string)", stack: in.stack()})
 	}
-	return mkval(Substr(st, l, Sub(h, l)), types.String)
+	return mkval(in.nameTerm(Substr(st, l, Sub(h, l)), "slice"), types.String)
+}
+
+// nameTerm gives a compound string term a fresh name (v = term is assumed),
+// so that later constraints mention v instead of a growing nest of
+// substr/indexof/ite applications.
+func (in *interpreter) nameTerm(t *Term, hint string) *Term {
+	if t.lit || len(t.s) < 64 {
+		return t
+	}
+	v := in.path.Fresh(hint, t.S)
+	in.path.Assume(Eq(v, t))
+	return v
 }
 
 // ---- rendering
